@@ -1,9 +1,11 @@
 (* C03: unrolled output is flat, self-contained, re-loadable and a fixpoint of unroll.
    Statements only; proofs in Lang/FlatProofs.v.  The flatness clause is a theorem about the visitor
-   model for every program; the re-load and fixpoint clauses involve the third-party parser/printer
-   and are established on the explored programs by harness/check_c03.py. *)
+   model for every program; the acceptance and fixpoint clauses are theorems about the visitor model for
+   every WELL-FORMED flat program (Lang/FixProofs.v; ./check C03 evaluates the well-formedness predicate on
+   every real output); the text round trip involves the third-party parser/printer and is established on the
+   explored programs by harness/check_c03.py. *)
 From Coq Require Import ZArith List Bool String.
-From Verif Require Import BGate PyVal Ast State Unroll FlatProofs.
+From Verif Require Import BGate PyVal Ast State Unroll FlatProofs FixProofs.
 Import ListNotations.
 
 (* For every program, OpenQASM 2 or 3, with or without external gates: every statement of the output
@@ -44,3 +46,61 @@ Example C03_example :
   | Err _ => 0%nat
   end = 6%nat.
 Proof. vm_compute. reflexivity. Qed.
+
+(* Re-load and fixpoint clauses.  A flat program is WELL FORMED (wf_flat, a decidable predicate) when every statement is an
+   include not seen before, a qubit / bit register declaration with a literal size 1 <= n < 100000 under a fresh name
+   (a bit register's initial value, if any, a literal), or an operation on registers declared BEFORE it: a gate of a
+   name the operation tables lower to itself (id h x y z s t sdg tdg sx rx ry rz cx cz swap ccx c4x), with numeric
+   literal parameters of the right number, on the right number of pairwise distinct, literally indexed qubits inside
+   their registers; a gphase with a numeric literal and no operands; a single-bit measurement, a reset, a single-qubit
+   barrier on such bits; a conditional `c == k` / `c[i] == true|false` on a declared register / bit inside it with a
+   non-empty if-block, both blocks well-formed operations.
+   For EVERY such program, of any length and any nesting depth (fuel above the nesting depth): validate() accepts it,
+   unroll() accepts it, and unroll() emits exactly the program itself -- "accepted again ... unrolling it again
+   changes nothing". *)
+Theorem C03_wellformed_flat_program_is_accepted_and_a_fixpoint fuel p :
+  wf_flat env0 p = true -> (ldepth p < fuel)%nat ->
+  (exists o, run_visit false true [] fuel p = Ok o) /\
+  (exists o, run_visit false false [] fuel p = Ok o /\ o_stmts o = p).
+Proof.
+  intros Hw Hf. destruct (wf_flat_is_accepted_and_a_fixpoint fuel p Hw Hf) as [(o1 & E1 & _) (o2 & E2 & Ho & _)].
+  split; [exists o1; exact E1|exists o2; split; assumption].
+Qed.
+Print Assumptions C03_wellformed_flat_program_is_accepted_and_a_fixpoint.
+
+(* ... with the fuel the model's unroll / validate use, for programs nested less than 200 deep *)
+Corollary C03_unroll_of_wellformed_flat_program_is_identity p o :
+  wf_flat env0 p = true -> (ldepth p < default_fuel)%nat ->
+  unroll_v false [] p = Ok o -> o_stmts o = p.
+Proof.
+  intros Hw Hd Hu. destruct (wf_flat_is_accepted_and_a_fixpoint default_fuel p Hw Hd) as [_ (o' & E & Ho & _)].
+  unfold unroll_v in Hu. rewrite E in Hu. injection Hu as <-. exact Ho.
+Qed.
+Print Assumptions C03_unroll_of_wellformed_flat_program_is_identity.
+
+(* every operation of a well-formed flat program is accepted and emitted as it stands in any state that holds the
+   registers declared so far, in validate and in unroll mode (the per-statement form, by induction on the fuel) *)
+Theorem C03_wellformed_operation_is_emitted_unchanged check_only fuel stm env s :
+  (sdepth stm < fuel)%nat -> Regs env s -> op_ok env stm = true ->
+  exists s', visit_stmt check_only [] fuel stm s = Ok ((if check_only then [] else [stm]), s') /\ DE s s'.
+Proof. exact (op_fix check_only fuel stm env s). Qed.
+Print Assumptions C03_wellformed_operation_is_emitted_unchanged.
+
+(* non-vacuity: a concrete program with every statement kind, nested conditionals included, is well formed; and the
+   predicate rejects a use before the declaration, an operand outside its register, a repeated operand, a gate that
+   is not a basis gate, an unevaluated parameter *)
+Example C03_wf_flat_example :
+  let q i := QIdx "q" [IdxList [IExpr (ELit (VInt i))]] in
+  let c i := QIdx "c" [IdxList [IExpr (ELit (VInt i))]] in
+  let decls := [SInclude "stdgates.inc"; SQubitDecl "q" (Some (ELit (VInt 3))); SClassicalDecl (TBit (Some (ELit (VInt 2)))) "c" None] in
+  wf_flat env0 (decls ++
+     [SGate [] "h" [] [q 0]; SGate [] "rx" [ELit (VInt 2)] [q 1]; SGate [] "ccx" [] [q 2; q 0; q 1]; SPhase [] (ELit (VInt 1)) [];
+      SMeasure (q 0) (Some (c 1)); SReset (q 0); SBarrier [q 2];
+      SIf (EBin "==" (EIndexE (EId "c") (IdxList [IExpr (ELit (VInt 1))])) (ELit (VBool true)))
+          [SGate [] "x" [] [q 1]; SIf (EBin "==" (EId "c") (ELit (VInt 2))) [SGate [] "z" [] [q 2]] []] [SGate [] "y" [] [q 0]]]) = true /\
+  map (fun st => wf_flat env0 (decls ++ [st]))
+      [SGate [] "h" [] [q 3]; SGate [] "cx" [] [q 1; q 1]; SGate [] "crz" [ELit (VInt 1)] [q 0; q 1]; SGate [] "rx" [EId "t"] [q 0];
+       SMeasure (q 0) (Some (c 2)); SGate [] "h" [] [QIdx "r" [IdxList [IExpr (ELit (VInt 0))]]]; SQubitDecl "q" (Some (ELit (VInt 1)))]
+  = repeat false 7 /\
+  wf_flat env0 [SGate [] "h" [] [q 0]; SQubitDecl "q" (Some (ELit (VInt 3)))] = false.
+Proof. vm_compute. repeat split; reflexivity. Qed.
